@@ -457,7 +457,12 @@ def install_fp(E):
         if res == 'LOOP_CONTINUE':
             nxt = [ev for ev in I.events if ev[0] == 'loop_continue'][0][1]
             out.append(I.E.check_true(I, dec is False, 'FP: the loop continues only when t(s) differs from s', {'decision': dec, 'tests': [str(c) for c in calls]}))
-            out.append(I.E.check_true(I, nxt.get(sv) is not None and I.W.rep(nxt[sv]) == ts, 'FP: the next state is t(s)', {'next': show_key(nxt.get(sv)) if nxt.get(sv) else None}))
+            out.append(I.E.check_true(I, nxt.get(sv) is not None and I.W.rep(nxt[sv]) == I.W.rep(ts), 'FP: the next state is t(s)', {'next': show_key(nxt.get(sv)) if nxt.get(sv) else None}))
+            for ev in I.events:
+                if ev[0] == 'loop_invariant':
+                    _, v2, v1, fn_ = ev
+                    okinv = nxt.get(v2) is not None and nxt.get(v1) is not None and I.W.rep(nxt[v2]) == I.W.rep(('app', 'UFT', fn_, nxt[v1]))
+                    out.append(I.E.check_true(I, okinv, 'FP: the look-ahead variable is again t(state) when the loop continues', {'next': show_key(nxt.get(v2)) if nxt.get(v2) else None}))
         elif isinstance(res, Diverge):
             out.append(I.E.check_true(I, False, 'FP: panic inside the iteration', loc=res.loc))
         else:
